@@ -33,9 +33,11 @@ OWN = ["add_tag", "itemize", "get_tag_name"]
 PRIVATE = ["_tag_counter", "_tag_names"]
 DUNDER = ["__len__", "__dict__", "__class__", "__init__", "__doc__", "__module__", "__getattr__", "__name__", "__repr__",
           "__eq__", "__hash__", "__str__", "__setattr__", "__weakref__", "__new__", "__slots__", "__bool__", "__file__",
-          "__spec__", "__builtins__", "__loader__", "__sizeof__"]
+          "__spec__", "__builtins__", "__loader__", "__sizeof__", "__annotations__", "__package__", "__path__", "__dir__",
+          "__getattribute__", "__reduce__", "__init_subclass__", "__subclasshook__", "__format__"]
 MODGLOBALS = ["TagLibrary", "itemize", "DuplicateTagError", "TagNotFoundError", "_module_library", "add_tag",
               "get_tag_name", "__name__", "__getattr__"]
+BUILTINS = ["super", "enumerate", "hasattr", "globals", "len", "list", "print", "type", "int", "str", "range", "isinstance"]
 ARBITRARY = ["", " ", "two words", "9lives", "naïve", "a.b", "SHEEP\n", "None", "none"]
 PLAIN = ["SHEEP", "WOLF", "GRASS", "PREY", "A", "B", "C", "tag_1", "x"]
 
@@ -49,7 +51,7 @@ def name_class(n):
         return "dunder"
     if n in MODGLOBALS:
         return "modglobal"
-    if n in ARBITRARY:
+    if n in ARBITRARY or n in BUILTINS:
         return "arbitrary"
     return "plain"
 
@@ -67,7 +69,7 @@ def generate(rng, tier):
         if r < 0.5:
             h = rng.random()
             if h < hostile_rate:
-                pool = OWN + PRIVATE + DUNDER + ARBITRARY + (MODGLOBALS if lib == "g" else [])
+                pool = OWN + PRIVATE + DUNDER + ARBITRARY + BUILTINS + (MODGLOBALS if lib == "g" else [])
                 name = rng.choice(pool)
             elif h < hostile_rate + 0.12:
                 name = "NONE"
